@@ -168,7 +168,7 @@ def main(tier):
     of = os.path.join(d, 'hists.json')
     rc, out = V.run([hr, 'hist', hf, of], timeout=1800)
     if rc != 0:
-        raise V.Broken('h_route hist failed rc=%d %s' % (rc, out[-1500:]))
+        V.harness_exit('h_route:hist', rc, out)
     res = json.load(open(of))
     LS = res['LS']
     # ---- B2a: call sequences + reported scenes against RouterApi
